@@ -48,6 +48,9 @@ def h09rpc(k, ops, kindsel, ntags, dotu, seg, gopeer, P, race=True, timeout=600)
 def h09pool(n, dotu):
     return {"harness": "vxH09Pool", "args": [str(n), b(dotu)], "files": F9, "preempt": 0, "race": True, "reach": ["done", "all-tags-outstanding"],
             "bounds": f"pool of 3 tags, all 27 distributions of the tags over free pool / cached slot / outstanding; 1 call then census, then {n} more consecutive calls then census; dotu={b(dotu)}"}
+def h09recycle(n, ntags=24):
+    return {"harness": "vxH09Recycle", "args": [str(n), str(ntags)], "files": F9, "reach": ["done"],
+            "bounds": f"slot/tag conservation: {n} requests allocated at once (slot cache holds 16) from a pool of {ntags} tags, freed in either order, every tag available again and handed out distinct"}
 def h09tag(n, cap, other, dotu, P, timeout=600):
     return {"harness": "vxH09Tag", "args": [str(n), str(cap), b(other), b(dotu)], "files": F9, "preempt": P, "race": True, "reach": ["done"], "timeout_s": timeout,
             "bounds": f"{n} Tag.Read requests under one tag, user channel capacity {cap}{', one ordinary call concurrently' if other else ''}; replies matching/Rerror (all combinations), eager or after all; TagFree; <= {P} preemptions"}
@@ -62,6 +65,7 @@ w("C09", {
   h09rpc(2, 4, -1, 3, False, False, True, 0),          #  4320 paths,  5 s (goroutine peer)
   h09rpc(1, 0, -1, 0, True, False, False, 0),          #  real NewClnt (0.4M steps per path)
   h09pool(8, True),                                    #    27 paths
+  h09recycle(1), h09recycle(16), h09recycle(17), h09recycle(20),
   h09tag(2, 16, False, True, 1),                       #  4048 paths,  2 s
   h09tag(3, 16, False, False, 0),                      #   552 paths
   h09tag(2, 16, True, True, 0),                        #  6668 paths,  4 s
@@ -79,6 +83,7 @@ w("C09", {
   h09rpc(2, 4, -1, 3, False, False, True, 0), h09rpc(2, 4, 0, 3, True, False, True, 1),
   h09rpc(2, 4, -1, 0, True, False, False, 0, timeout=3000),
   h09pool(8, True), h09pool(20, False),
+  h09recycle(1), h09recycle(3), h09recycle(16), h09recycle(17), h09recycle(18), h09recycle(23),
   h09tag(2, 16, False, True, 1), h09tag(3, 16, False, True, 1), h09tag(3, 16, False, False, 0), h09tag(2, 16, True, True, 0), h09tag(2, 0, False, True, 1), h09tag(3, 0, False, True, 0),
  ],
  "outside": ["more than 3 concurrent callers; more than 2 preemptions with 2 callers; any preemption with 3 callers (3 callers are explored over every choice of the next goroutine at blocking points only)", "the literal 65536-call run (replaced by the tag/slot conservation lemma H09.pool on a 3-tag pool plus more calls than tags)",
@@ -91,7 +96,8 @@ w("C09", {
 # ---------------- C10 ----------------
 F10 = ["api", "ref_wire", "kit_clnt", "c10"]
 MODES = {0: "stream cut", 1: "garbage frame (type byte 99)", 2: "frame announcing size 5", 3: "well-formed reply with an unknown tag", 4: "frame announcing size 8*msize+1 followed by 8*msize bytes, then end of stream",
-         5: "Unmount() from another goroutine", 6: "transport refuses the a-th request (Write error)"}
+         5: "Unmount() from another goroutine", 6: "transport refuses the a-th request (Write error)",
+         7: "the peer stops reading (the Write of the a-th request blocks until the connection is closed locally) and sends a garbage frame"}
 def h10(n, a, mode, bcut, P, race=False, timeout=600):
     where = "injected by the main goroutine while the callers enter Rpc" if a == 0 else f"at the arrival of request #{a}"
     cut = ""
@@ -109,6 +115,10 @@ def c10(quick):
             if mode == 6 and a == 0:
                 continue
             runs.append(h10(1, a, mode, -1 if (mode == 0 and a == 1) else 3, 2 if quick else 3))
+    # the peer stops reading while a request is being written, then sends garbage
+    runs.append(h10(1, 1, 7, 3, 2 if quick else 3))
+    runs.append(h10(2, 1, 7, 3, 1))
+    runs.append(h10(2, 2, 7, 3, 1))
     # two callers
     for mode, P in ((0, 1), (3, 1), (6, 1), (5, 0 if quick else 1), (1, 0 if quick else 1), (2, 0 if quick else 1), (4, 0 if quick else 1)):
         for a in (0, 1, 2):
@@ -127,7 +137,7 @@ def c10(quick):
 w("C10", {
  "quick": c10(True),
  "thorough": c10(False),
- "outside": ["more than 3 outstanding calls, more than 2-3 preemptions", "a transport whose Write blocks (peer not reading)", "bounded *time*: the check decides 'returns at all' (no goroutine parked forever in a quiescent state), not a wall-clock deadline",
+ "outside": ["more than 3 outstanding calls, more than 2-3 preemptions", "a transport whose Write blocks for other reasons than the peer not reading one request (the stall mode blocks exactly one Write until the local Close)", "bounded *time*: the check decides 'returns at all' (no goroutine parked forever in a quiescent state), not a wall-clock deadline",
              "reply streams longer than 3 replies"],
  "assumptions": CLNT_ASSUME + ["'complete reply preceded the failure' is decided on the scripted stream for failures that are part of the stream (cut, bad frames); for Unmount and Write errors a reply queued before the failure may or may not have been read: both outcomes are accepted (three-valued), a success must carry the caller's exact payload",
                 "a caller that never returns is reported as HANG: the harness main goroutine parks itself at a site named after the diagnosis once nothing else can run"],
